@@ -212,6 +212,7 @@ func Closure(t *testing.T, sc *Scenario, s *State, o ClosureOpts) ClosureResult 
 		stable := 0
 		lastKey := ""
 		validated := false
+		heldJumps := 0
 		for r := 1; r <= o.MaxRounds; r++ {
 			w, rq := l.round(cur, sc, &o, &res.Trace)
 			res.Rounds = r
@@ -223,6 +224,14 @@ func Closure(t *testing.T, sc *Scenario, s *State, o ClosureOpts) ClosureResult 
 				stable = 0
 			}
 			lastKey = k
+			if stable >= 2 && heldJumps < 8 && hasLiveFailedPod(cur) {
+				// quiet, but a Failed pod is still there: its deletion is held back by the replica-set controller's back-off
+				// (10 s, doubling), for which no requeue is asked. Let that much time pass before calling it a fixpoint.
+				heldJumps++
+				time.Sleep(time.Duration(10<<uint(heldJumps-1)) * time.Second)
+				stable = 0
+				continue
+			}
 			if stable >= 2 {
 				// a pending canary that will never move by itself: validate it (a legal history), once
 				if o.Validate && !validated {
@@ -272,6 +281,16 @@ func Closure(t *testing.T, sc *Scenario, s *State, o ClosureOpts) ClosureResult 
 		res.Final = cur
 	})
 	return res
+}
+
+// hasLiveFailedPod: a pod in phase Failed that is not being deleted.
+func hasLiveFailedPod(s *State) bool {
+	for _, p := range s.Pods() {
+		if p.Status.Phase == corev1.PodFailed && p.DeletionTimestamp == nil {
+			return true
+		}
+	}
+	return false
 }
 
 func podSet(s *State) string {
